@@ -211,6 +211,12 @@ func checkC16(res *world.Result, s *simrt.Sim, sc *Scenario, logs []*PlugLog, ho
 		if due {
 			hostWhy = append(hostWhy, fmt.Sprintf("plugins %s and %s both answer with plug_shared/same.go", a.Name, b.Name))
 			res.Count("c16.conflict-due", 1)
+			// a plugin that answers with a file another plugin has already answered with is a
+			// plugin that failed: the failure names it (or the one it collides with)
+			if host.Returned && host.Err != nil && !expectFail && !strings.Contains(host.Err.Error(), a.Name) && !strings.Contains(host.Err.Error(), b.Name) {
+				res.Failf("C16/exit-status-names-plugin", "plugins %s and %s answered with the same file but the host's failure names neither: %s", a.Name, b.Name,
+					first(strings.ReplaceAll(host.Err.Error(), env.Root, "$SB"), 400))
+			}
 		}
 	}
 	if len(hostWhy) > 0 {
